@@ -16,7 +16,10 @@ Follows `secsgem/gem/handler.py` (`enable`, `disable`, `_on_message_received`, `
 
 The engine (`StateMachine._perform_transition`: leave → switch → enter → called) is reduced to what these handlers see;
 the parent state ENABLED has no handlers.  Timers are explicit inputs guarded by the `…Armed` flags.  The boundary is the
-one the harness replaces: an in-memory connection (link = connected **and** selected) and a fake `threading.Timer`.
+one the harness replaces: an in-memory connection and a fake `threading.Timer`.  The link has two levels, as in the code:
+`connected` — `HsmsProtocol._on_connected` has started the receiver thread, so whatever is handed to `send_message` is written
+(also before the session is selected) — and `selected` — the `communicating` event has fired and inbound data messages pass
+the protocol gate.
 
 Two behaviours that the property text rules out are carried as variant flags: `Cfg.sysChecked` (`false` for the code as it
 is: the system bytes of an S1F14 are not compared, finding c07-s1f14-system-unchecked) and `Cfg.commackGate` (`true` for the
@@ -44,8 +47,10 @@ deriving Repr
 
 structure State where
   comm : Comm := .disabled
-  /-- the HSMS link is connected and selected (the receiver thread of the protocol runs) -/
-  link : Bool := false
+  /-- a transport connection exists: the receiver thread of the protocol runs and writes what is in the send queue -/
+  connected : Bool := false
+  /-- the HSMS session is selected: inbound data messages reach the handler -/
+  selected : Bool := false
   t3Armed : Bool := false
   delayArmed : Bool := false
   /-- number of S1F13 created so far = id of the next one (`get_next_system_counter`, abstracted) -/
@@ -57,6 +62,9 @@ structure State where
 deriving DecidableEq, Repr, Inhabited
 
 def init : State := {}
+
+/-- the link in the sense of the property ("the current link"): the selected session -/
+def State.link (s : State) : Bool := s.selected
 
 inductive SmErr | wrongSource | unknownTransition | unknownState
 deriving DecidableEq, Repr
@@ -92,11 +100,12 @@ def leaveEffects (s : State) : State :=
   if smWired s.comm "leave" "_on_state_leave_wait_delay" then { s with delayArmed := false } else s
 
 /-- `GemHandler._on_state_wait_cra`: `send_stream_function(S1F13)`.  The system bytes are drawn when the message is
-built; `send_message` blocks until the receiver thread has written the block — for ever if the link is down. -/
+built; `send_message` blocks until the receiver thread has written the block — for ever while there is no connection
+(selected or not does not matter). -/
 def sendS1F13 (s : State) : State × List Output :=
   let k := s.nextSys
   let s := { s with nextSys := k + 1, mySys := some k }
-  if s.link then (s, [.txS1F13 k]) else ({ s with queued := s.queued ++ [k] }, [.blocked])
+  if s.connected then (s, [.txS1F13 k]) else ({ s with queued := s.queued ++ [k] }, [.blocked])
 
 /-- the `enter` handlers of the (new) current state, in registration order: the state machine's own (timers), then `GemHandler`'s -/
 def enterEffects (s : State) : State × List Output :=
@@ -148,30 +157,40 @@ def onMessage (cfg : Cfg) (s : State) (sf f : Nat) (w : Bool) (sys : Nat) (comma
 def step (cfg : Cfg) (s : State) : Input → State × List Output
   | .enable => perform s .enable                            -- `_communication_state.enable()`; `protocol.enable()`
   | .disable => perform s .disable                          -- `protocol.disable()`; `_communication_state.disable()`
-  | .linkSelected =>
-    if s.link then (s, [])                                  -- Select.req when selected: Select.rsp, no `communicating` event
+  | .linkConnected =>
+    if s.connected then (s, [])
     else
-      -- `_on_connected` starts the receiver thread: the send queue is written; then Select.req → `communicating`
+      -- `_on_connected` starts the receiver thread: the send queue is written (first frames of the new connection)
+      ({ s with connected := true, queued := [] }, s.queued.map Output.txS1F13)
+  | .linkSelected =>
+    if s.selected then (s, [])                              -- Select.req when selected: Select.rsp, no `communicating` event
+    else
+      -- (connect first if there is no connection: the send queue is written;) Select.req → `communicating`
       let flushed := s.queued.map Output.txS1F13
-      let s := { s with link := true, queued := [] }
+      let s := { s with connected := true, selected := true, queued := [] }
       if hooked "communicating" "_on_communicating" && Gen.Callbacks.communicatingSelects then
         let r := perform s .select
         (r.1, flushed ++ r.2)
       else (s, flushed)
   | .linkLost =>
-    if !s.link then (s, [])
+    if !s.connected then (s, [])
     else
-      let s := { s with link := false, mySys := if cfg.sysChecked then none else s.mySys }
+      let s := { s with connected := false, selected := false, mySys := if cfg.sysChecked then none else s.mySys }
       if hooked "disconnected" "_on_disconnected" && Gen.Callbacks.disconnectedForwards
           && Gen.Callbacks.linkLossStates.contains s.comm.name then
         perform s .communicationfail
       else (s, [])
   | .rx sf f w sys commack =>
-    if !s.link then (s, []) else onMessage cfg s sf f w sys commack
+    -- not selected: the protocol layer answers Reject.req (or nothing reads the socket); the handler sees nothing
+    if !s.selected then (s, []) else onMessage cfg s sf f w sys commack
   | .t3Expired =>
     if !s.t3Armed then (s, []) else perform { s with t3Armed := false } .communicationreqfail
   | .delayExpired =>
     if !s.delayArmed then (s, []) else perform { s with delayArmed := false } .delayexpired
+
+/-- `GemHandler.waitfor_communicating(0)`: a fresh `threading.Event` is registered, the state is tested, the event is waited
+for with no time to pass — what the application is told is whether the state is COMMUNICATING now -/
+def reportsEstablished (s : State) : Bool := s.comm == .communicating
 
 /-- run a history, extending the observed trace -/
 def runFrom (cfg : Cfg) : State → List Obs → List Input → State × List Obs
